@@ -222,7 +222,8 @@ def check_proofs(prop):
             res['axioms'][name] = []
             res['discharged'] += 1
             continue
-        axs = re.findall(r'^([A-Za-z_][A-Za-z0-9_\.\']*)\s*:', body, re.M)
+        # entries start in column 0: `name : type` or `name` with the type on the following indented lines
+        axs = [a for a in re.findall(r'^([A-Za-z_][A-Za-z0-9_\.\']*)(?=\s*:|\s*$)', body, re.M) if a != 'Axioms']
         res['axioms'][name] = axs
         mod = qual.get(name, '').split('.')[-2] if name in qual else ''
         extra = [a for a in axs if not (a in AXIOM_ALLOW and mod in AXIOM_ALLOW_FILES)]
